@@ -13,16 +13,18 @@ for f in conf:
     elif f == "tools/extract.py":
         head = sh("git show HEAD:tools/extract.py").stdout
         theirs = sh(f"git show {br}:tools/extract.py").stdout
-        have = set(re.findall(r"^def (gen_[a-z0-9_]+)\(", head, re.M))
-        for m in re.finditer(r"\ndef (gen_[a-z0-9_]+)\(\):.*?(?=\ndef [a-zA-Z_]+\(|\Z)", theirs, re.S):
-            if m.group(1) not in have:
-                head = head.replace("\ndef main():", m.group(0).rstrip() + "\n\n\ndef main():", 1)
+        have = set(re.findall(r"^def ([a-zA-Z_][a-zA-Z0-9_]*)\(", head, re.M))
+        for n in re.findall(r"^def ([a-zA-Z_][a-zA-Z0-9_]*)\(", theirs, re.M):
+            if n in have or n == "main":
+                continue
+            start = theirs.index(f"\ndef {n}(")
+            rest = theirs[start + 1:]
+            m = re.search(r"\ndef [a-zA-Z_][a-zA-Z0-9_]*\([^)]*\):\n", rest)     # next PYTHON def (Lean `def x : T` lines inside strings do not match)
+            body = theirs[start:start + 1 + (m.start() if m else len(rest))]
+            head = head.replace("\ndef main():", body.rstrip() + "\n\n\ndef main():", 1)
+            if n.startswith("gen_"):
                 calls = re.findall(r"    info\.update\(gen_[a-z0-9_]+\(\)\)\n", head)
-                head = head.replace(calls[-1], calls[-1] + f"    info.update({m.group(1)}())\n", 1)
-        # helper functions of the branch that are not gen_* (defined before main) are taken too
-        for m in re.finditer(r"\ndef ([a-zA-Z_][a-zA-Z0-9_]*)\(.*?(?=\ndef [a-zA-Z_]+\(|\Z)", theirs, re.S):
-            if not m.group(1).startswith("gen_") and m.group(1) != "main" and not re.search(r"^def " + m.group(1) + r"\(", head, re.M):
-                head = head.replace("\ndef main():", m.group(0).rstrip() + "\n\n\ndef main():", 1)
+                head = head.replace(calls[-1], calls[-1] + f"    info.update({n}())\n", 1)
         open("tools/extract.py", "w").write(head)
     else:
         s = open(f).read()
